@@ -56,8 +56,16 @@ class InternalCompiler(Compiler):
             is_temp = sym.name.startswith("__")
             symp_exp = self._symplify_exp(exp)
 
-            # 2.1 Compile the expression
-            iret = self.compile_expr(qc, symp_exp, sym=sym)
+            # 2.1 Compile the expression; a returned value is computed on a qubit
+            # never used as scratch, because the final uncompute replays everything
+            # in reverse except the gates targeting the returned qubits
+            dest = None
+            if sym.name.startswith("_ret") and isinstance(
+                symp_exp, (And, Or, Xor, Not)
+            ):
+                dest = qc.add_ancilla(is_free=False)
+
+            iret = self.compile_expr(qc, symp_exp, dest=dest, sym=sym)
 
             # 2.2 Map iret qubit to the symbol
             self.expqmap[sym] = iret
@@ -275,14 +283,15 @@ class InternalCompiler(Compiler):
     def compile_symbol(self, qc, expr, dest=None, sym=None) -> int:
         # 1. If a qubit is mapped to another qubit (iff sym.name is a _ret)
         if sym is not None and sym.name.startswith("_ret"):
-            # 1.1 Xor mapping to a new qubit if the expr is an input
-            if expr.name in self.input_symbols:
-                iret = qc.add_qubit(sym.name)
-                qc.cx(qc[expr.name], iret)
-                return iret
-            # 1.2 Remap otherwise
-            else:
-                return qc[expr.name]
+            # 1.1 Xor mapping to a new qubit: the qubit of an input must not be
+            # changed, and the one of an intermediate value may have been used as
+            # scratch before (see compile 2.1)
+            if expr.name not in qc:
+                raise CompilerException(f"Symbol not found in qc: {expr.name}")
+
+            iret = qc.add_qubit(sym.name)
+            qc.cx(qc[expr.name], iret)
+            return iret
 
         # 2. Returns symbol' index
         if expr.name not in qc:
